@@ -983,12 +983,15 @@ def run(ctx):
         check_bounds(ctx, case)
         b.add(case, 'corpus')
     b.flush()
+    phase = ctx.extra.setdefault('phase_s', {})
+    phase['corpus'] = round(time.time() - t0, 1)
     for kind in KINDS:
         for mode in (MODES if kind == 'gauge' else ('',)):
             for case in alphabet_cases(kind, mode):
                 b.add(case, 'alphabet')
             b.flush()
     ctx.extra['alphabet_depth'] = 2
+    phase['alphabet'] = round(time.time() - t0, 1)
     # the store crossing its capacity: small patched initial size for many alignments, and the real 64 KiB a few times
     n_grow, n_real = (60, 3) if ctx.tier == 'quick' else (600, 12)
     for k in range(n_grow):
@@ -997,11 +1000,13 @@ def run(ctx):
     for k in range(n_real):
         b.add(gen_growth_case(rng, 0, 760 + 40 * k), 'growth-64KiB')
         b.flush()
+    phase['growth'] = round(time.time() - t0, 1)
     for k in range(400 if ctx.tier == 'quick' else 6000):
         b.add(gen_points_case(rng), 'collection-points')
         if len(b.items) >= 300:
             b.flush()
     b.flush()
+    phase['points'] = round(time.time() - t0, 1)
     n_short, n_long = (1800, 40) if ctx.tier == 'quick' else (30000, 1500)
     if ctx.broken:
         n_short, n_long = n_short * 2, n_long * 2
@@ -1025,6 +1030,7 @@ def run(ctx):
         if len(b.items) >= 50:
             b.flush()
     b.flush()
+    phase['random'] = round(time.time() - t0, 1)
     ctx.extra['documented_limits'] = {
         'signed-zero-sum': b.limits.get('signed-zero-sum', 0),
         'signed-zero-sum-meaning': 'series whose two values are numerically equal zeros of different sign: the collector reports 0.0 + value '
